@@ -38,62 +38,96 @@ structure Params where
   patOk : String → String → Bool
   fmtOk : String → JsVal → Bool
 
+/-! The evaluator is strict in its sub-evaluations: a keyword whose sub-schema ran out of fuel makes the whole verdict
+`none`. The three combinators and the per-keyword clauses are named so that statements about them are proved once
+(Props/C02Eval.lean). -/
+
+def andO : Option Bool → Option Bool → Option Bool
+  | some a, some b => some (a && b)
+  | _, _ => none
+def orO : Option Bool → Option Bool → Option Bool
+  | some a, some b => some (a || b)
+  | _, _ => none
+def cntO : Option Nat → Option Bool → Option Nat
+  | some k, some b => some (if b then k + 1 else k)
+  | _, _ => none
+
+/-- conjunction of verdicts -/
+def allO (l : List (Option Bool)) : Option Bool := l.foldl andO (some true)
+
+/-- disjunction of verdicts -/
+def anyO (l : List (Option Bool)) : Option Bool := l.foldl orO (some false)
+
+/-- number of positive verdicts -/
+def countO (l : List (Option Bool)) : Option Nat := l.foldl cntO (some 0)
+
+/-- `minItems` as written by the printer: a decimal numeral -/
+def parseNat (c : String) : Nat := c.toList.foldl (fun acc ch => 10 * acc + (ch.toNat - 48)) 0
+
+section clauses
+variable (P : Params) (v : JsVal → JsVal → Option Bool) (get : String → Option JsVal) (d : JsVal)
+
+def cType : Option Bool := match get "type" with | some (.str t) => some (typeOk t d) | _ => some true
+def cConst : Option Bool := match get "const" with | some c => some (jsonEq 50 c d) | none => some true
+def cEnum : Option Bool := match get "enum" with | some (.arr cs) => some (cs.any (fun c => jsonEq 50 c d)) | _ => some true
+def cAny : Option Bool := match get "anyOf" with | some (.arr ss) => anyO (ss.map (fun s => v s d)) | _ => some true
+def cOne : Option Bool := match get "oneOf" with
+  | some (.arr ss) => (countO (ss.map (fun s => v s d))).map (· == 1)
+  | _ => some true
+def cAll : Option Bool := match get "allOf" with | some (.arr ss) => allO (ss.map (fun s => v s d)) | _ => some true
+def cNot : Option Bool := match get "not" with | some s => (v s d).map (!·) | none => some true
+def cRef : Option Bool := match get "$ref" with
+  | some (.str r) => (match (P.nameOfRef r).bind (fun nm => lookupProp P.defs nm) with
+    | some s => v s d
+    | none => none)
+  | _ => some true
+def cPattern : Option Bool := match get "pattern", d with | some (.str p), .str s => some (P.patOk p s) | _, _ => some true
+def cFormat : Option Bool := match get "format" with | some (.str f) => some (P.fmtOk f d) | _ => some true
+
+def declaredOf : List (String × JsVal) := match get "properties" with | some (.obj ps) => ps | _ => []
+
+def cObj : Option Bool := match d with
+  | .obj props =>
+    let declared := declaredOf get
+    let cProps := allO (declared.map fun p => match lookupProp props p.1 with | some x => v p.2 x | none => some true)
+    let cReq := match get "required" with
+      | some (.arr rs) => some (rs.all (fun r => match r with | .str k => (lookupProp props k).isSome | _ => true))
+      | _ => some true
+    let extra := props.filter (fun p => !(declared.any (fun q => q.1 == p.1)))
+    let cAdd := match get "additionalProperties" with
+      | some s => allO (extra.map (fun p => v s p.2))
+      | none => some true
+    let cNames := match get "propertyNames" with
+      | some s => allO (props.map (fun p => v s (.str p.1)))
+      | none => some true
+    allO [cProps, cReq, cAdd, cNames]
+  | _ => some true
+
+def prefixOf : List JsVal := match get "prefixItems" with | some (.arr ps) => ps | _ => []
+
+def cArr : Option Bool := match d with
+  | .arr items =>
+    let pre := prefixOf get
+    let cPre := allO ((pre.zip items).map (fun p => v p.1 p.2))
+    let cItems := match get "items" with
+      | some s => allO ((items.drop pre.length).map (fun x => v s x))
+      | none => some true
+    let cMin := match get "minItems" with
+      | some (.num c) => some (decide (parseNat c ≤ items.length))
+      | _ => some true
+    allO [cPre, cItems, cMin]
+  | _ => some true
+
+/-- one object schema: the conjunction of its keywords -/
+def validG : Option Bool :=
+  allO [cType get d, cConst get d, cEnum get d, cAny v get d, cOne v get d, cAll v get d, cNot v get d, cRef P v get d,
+    cPattern P get d, cFormat P get d, cObj v get d, cArr v get d]
+end clauses
+
 def valid (P : Params) : Nat → JsVal → JsVal → Option Bool
   | 0, _, _ => none
   | _+1, .bool b, _ => some b
-  | n+1, .obj kvs, d =>
-    let v := valid P n
-    let allO (l : List (Option Bool)) : Option Bool :=
-      l.foldl (fun acc x => match acc, x with | some a, some b => some (a && b) | _, _ => none) (some true)
-    let get := lookupProp kvs
-    let cType := match get "type" with | some (.str t) => some (typeOk t d) | _ => some true
-    let cConst := match get "const" with | some c => some (jsonEq 50 c d) | none => some true
-    let cEnum := match get "enum" with | some (.arr cs) => some (cs.any (fun c => jsonEq 50 c d)) | _ => some true
-    let cAny := match get "anyOf" with
-      | some (.arr ss) => (ss.foldl (fun acc s => match acc, v s d with | some a, some b => some (a || b) | _, _ => none) (some false))
-      | _ => some true
-    let cOne := match get "oneOf" with
-      | some (.arr ss) => (ss.foldl (fun (acc : Option Nat) s => match acc, v s d with
-          | some k, some b => some (if b then k + 1 else k) | _, _ => none) (some 0)).map (· == 1)
-      | _ => some true
-    let cAll := match get "allOf" with | some (.arr ss) => allO (ss.map (fun s => v s d)) | _ => some true
-    let cNot := match get "not" with | some s => (v s d).map (!·) | none => some true
-    let cRef := match get "$ref" with
-      | some (.str r) => (match (P.nameOfRef r).bind (fun nm => lookupProp P.defs nm) with
-        | some s => v s d
-        | none => none)
-      | _ => some true
-    let cPattern := match get "pattern", d with | some (.str p), .str s => some (P.patOk p s) | _, _ => some true
-    let cFormat := match get "format" with | some (.str f) => some (P.fmtOk f d) | _ => some true
-    let cObj := match d with
-      | .obj props =>
-        let declared : List (String × JsVal) := match get "properties" with | some (.obj ps) => ps | _ => []
-        let cProps := allO (declared.map fun p => match lookupProp props p.1 with | some x => v p.2 x | none => some true)
-        let cReq := match get "required" with
-          | some (.arr rs) => some (rs.all (fun r => match r with | .str k => (lookupProp props k).isSome | _ => true))
-          | _ => some true
-        let extra := props.filter (fun p => !(declared.any (fun q => q.1 == p.1)))
-        let cAdd := match get "additionalProperties" with
-          | some s => allO (extra.map (fun p => v s p.2))
-          | none => some true
-        let cNames := match get "propertyNames" with
-          | some s => allO (props.map (fun p => v s (.str p.1)))
-          | none => some true
-        allO [cProps, cReq, cAdd, cNames]
-      | _ => some true
-    let cArr := match d with
-      | .arr items =>
-        let pre : List JsVal := match get "prefixItems" with | some (.arr ps) => ps | _ => []
-        let cPre := allO ((pre.zip items).map (fun p => v p.1 p.2))
-        let cItems := match get "items" with
-          | some s => allO ((items.drop pre.length).map (fun x => v s x))
-          | none => some true
-        let cMin := match get "minItems" with
-          | some (.num c) => some (decide ((c.toList.foldl (fun acc ch => 10 * acc + (ch.toNat - 48)) 0) ≤ items.length))
-          | _ => some true
-        allO [cPre, cItems, cMin]
-      | _ => some true
-    allO [cType, cConst, cEnum, cAny, cOne, cAll, cNot, cRef, cPattern, cFormat, cObj, cArr]
+  | n+1, .obj kvs, d => validG P (valid P n) (lookupProp kvs) d
   | _+1, _, _ => none
 
 /-- JSON documents: the values `JSON.parse` can produce -/
